@@ -718,12 +718,12 @@ def grid(routine, scen):
         seen.add(k)
         out.append(c)
     extra = []
-    if fam == "td7":
+    if fam == "td7":  # training is released by the checkpoint logic at episode ends
         extra = [dict(out[0], use_checkpoints=True), dict(out[1], use_checkpoints=True), dict(out[6], use_checkpoints=True)]
-    if fam in ("ddpg", "td3") or "gradient_steps=2" in scen:
-        extra += [dict(out[0], gradient_steps=2)] if fam in ("ddpg", "td3") else []
+    if fam in ("ddpg", "td3"):
+        extra = [dict(out[0], gradient_steps=2)]
     if fam == "sac":
-        extra += [dict(out[0], autotune=False)]
+        extra = [dict(out[0], autotune=False)]
     out = out[:3] + extra + out[3:]
     if "episode-limit" in scen:
         out.sort(key=lambda c: c["episodes"] is None)
@@ -774,7 +774,10 @@ def main():
         except Exception as e:  # driver-side failure for this configuration
             errors.append(f"{cfg}: driver error {type(e).__name__}: {str(e)[:200]}")
             continue
-        tried.append(dict(cfg=r["cfg"], seconds=r["seconds"], **r["stats"]))
+        st = r["stats"]
+        tried.append(f"{r['conf']}{''.join(f', {k}={v}' for k, v in r['cfg'].items() if k not in ('total', 'start', 'episodes', 'script', 'learning_starts'))}"
+                     f" -> executed={st['executed']} finished_episodes={st['finished_episodes']} reported={st['reported']} stores={st['stores']}"
+                     f" acts={sum(st['acts'].values())} updates={st['updates']} first_update_after={st['first_update_after']} ({r['seconds']} s)")
         if r["error"]:
             errors.append(f"{r['cfg']}: {r['error']}")
         if want_exc and r["exception_type"] == want_exc.group(1):
